@@ -41,7 +41,15 @@ def gen_cases(rng, tier):
                 continue
             cls = rng.choice(['restricted', 'sso', 'diag', 'dc2', 'sparse'] if mode == 'ns' else ['gso', 'diag2', 'sparse'])
             rank = rng.randint(1, 2)
-            ham = c01.gen_ham(rng, cls, rank, norb, 'sparse', True, True)
+            real = rng.random() < 0.5
+            if cls == 'restricted':
+                rank = rng.choice([1, 2, 2, 3])
+            if _h == 0 and mode == 'ns' and rng.random() < 0.5:
+                # a three-body restricted Hamiltonian with complex128 tensors in every other single-sector history
+                # (the 1+2+3-body kernels fold the three-body tensor into working copies of the lower ones)
+                cls, rank, real = 'restricted', 3, False
+            # complex tensors as often as real ones: a complex128 array is what the kernels would not need to convert
+            ham = c01.gen_ham(rng, cls, rank, norb, 'sparse', real, True)
             if cls == 'sso':
                 ham['entries'] = c01.pair_symmetrise(c01._sso_filter(ham['entries'], norb))
             if cls == 'sparse':
